@@ -22,7 +22,8 @@ from . import common as C
 
 LEVEL = {"C10": "model_checking", "C11": "model_checking"}
 INVS = {"C10": ["LoadAgrees", "LiveIsView", "StatusAgrees", "LowersFrozen"], "C11": ["RestartSame"]}
-OPS = ["create", "mknod", "mkdir", "symlink", "link", "unlink", "rmdir", "write", "truncate", "chmod", "setxattr", "removexattr"]
+OPS = ["create", "mknod", "mkdir", "symlink", "link", "unlink", "rmdir", "write", "truncate", "chmod", "setxattr", "removexattr",
+       "open", "hsetattr", "hwrite", "close"]
 
 
 # ------------------------------------------------------------------------------------------------
